@@ -14,6 +14,7 @@ DECIDED += "; R9 the host's tasks are destroyed (crash / bounce) while a runtime
 DECIDED += "; R8 also: a nesting guard writes back the value it saved; the software factory runs inside the host's runtime (shared C04-R5)"
 DECIDED += '; the client and the host runtime are built alike (shared C05-R5); entering a scope installs its own value of a scoped thread-local on every path'
 DECIDED += '; R10 a Builder setter stores its argument on every path; the key of a hashed collection (hasher / hash_one / build_hasher) is an entropy source (R2)'
+DECIDED += '; a dropped barrier is unregistered under the id it was registered with (shared C20-R4)'
 ASSUMPTIONS = ["IndexMap/IndexSet/VecDeque/Vec/BTreeMap iterate in a process-independent order",
                "SmallRng::seed_from_u64/from_seed are pure functions of the seed"]
 
